@@ -362,7 +362,13 @@ func (p *specParser) primary() *SExpr {
 				if ty.kind != "id" {
 					p.fail("expected binder type")
 				}
-				bs = append(bs, Binder{n.text, ty.text})
+				tname := ty.text
+				// package-qualified binder types: common.Address
+				for p.isOp(".") && p.toks[p.i+1].kind == "id" {
+					p.next()
+					tname += "." + p.next().text
+				}
+				bs = append(bs, Binder{n.text, tname})
 				if !p.accept(",") {
 					break
 				}
